@@ -30,5 +30,6 @@ def make_jobs(ctx):
     for (name, m, script, hk) in F.memory_family(ctx.seed, ctx.quick):
         wasmvalid.validate(m)
         jobs.append(e2_job(ctx, name, m, script, backends=['sat', 'kissat', 'z3'], unwind=14, harness_kw=hk, page=64,
-                           extra_flags=['--unwindset', 'streq.0:26'], timeout=200 if ctx.quick else 900))
+                           extra_flags=['--unwindset', 'streq.0:26'], timeout=200 if ctx.quick else 900,
+                           extra_defs=['-DWASM_THREADS_PTHREADS'] if 'shared' in name else ()))
     return jobs
